@@ -101,17 +101,21 @@ pub fn run(cx: &Ctx) {
     let cases = cx.by(250, 8000 / 2);
     let strat = move || gen::dataset(1, mid, big, 11.9).prop_map(|xs| Xs { xs });
     let bounds = "n 1..=30000 (quick 12000), kappa <= 1e12";
+    cx.label("generated");
     cx.run_pt(&mean_check(), cases, w, strat, bounds);
     cx.run_pt(&var_check(), cases, w, strat, bounds);
+    cx.label("textbook-killers");
     cx.run_list(&var_check(), killers(), "textbook-killer family: offset/spread 1e9..3e11, n 4..1000, 3 scales");
     cx.run_list(&mean_check(), killers(), "textbook-killer family");
     if cx.thorough() {
         let bulk = |n: usize| {
             move || (any::<u64>(), gen::placement(11.9)).prop_map(move |(seed, pl)| Xs { xs: gen::bulk_dataset(n, seed, &pl) })
         };
+        cx.label("bulk");
         cx.run_pt(&var_check(), 2, w, bulk(100_000), "bulk n = 1e5");
         cx.run_pt(&var_check(), 1, 4, bulk(1_000_000), "bulk n = 1e6");
         cx.run_pt(&mean_check(), 1, 4, bulk(1_000_000), "bulk n = 1e6");
+        cx.label("search");
         cx.run_climb(&var_check(), climb_starts(cx, 96, 0xC01), 4000, mutate_xs, "hill-climb on error/envelope, 96 starts x 4000 steps");
         cx.run_climb(&mean_check(), climb_starts(cx, 48, 0xC01A), 4000, mutate_xs, "hill-climb, 48 starts x 4000 steps");
     }
